@@ -853,6 +853,32 @@ def forbid_check(case, R=None):
     if got != cols[0] ^ spells:
         bad('model-set', 'clause %r is not "false exactly when the bits of %d spell %d": %s' %
             (clause, i, j, describe_diff(got, cols[0] ^ spells, N)))
+        return out
+    # The clause handed out belongs to the caller: extending it in place (a
+    # user adding a literal before inserting the clause) must not change what
+    # the same group hands out later, nor the meaning of the requirements
+    # added afterwards (sequence: forbid, mutate, forbid / force_*).
+    try:
+        snapshot = list(clause)
+        if isinstance(clause, list):
+            clause.append(N + 1)
+            clause.reverse()
+        again = f.forbid(i, j)
+        if list(again) != snapshot:
+            bad('aliased-result', 'forbid(%d,%d) returns %r after the caller modified the first '
+                'result (was %r)' % (i, j, list(again), snapshot))
+            return out
+        if j < m and n >= 2 and N <= 14:
+            F.force_injective_mapping(f)
+            F.force_complete_mapping(f)
+            F2, f2 = build_mapping({'cls': 'CNF', 'kind': 'binary', 'n': n, 'm': m, 'pre': pre})
+            F2.force_injective_mapping(f2)
+            F2.force_complete_mapping(f2)
+            if [list(c) for c in F.clauses()] != [list(c) for c in F2.clauses()]:
+                bad('requirements-after-mutation',
+                    'injective+complete clauses differ after a forbid() result was modified')
+    except Exception as e:
+        bad('sequence:exception:' + type(e).__name__, 'raised %r' % (e,))
     return out
 
 
